@@ -6,7 +6,7 @@ profile = "safety":     NO precondition on any field value (C12); only Verus' im
                         (overflow, bounds, callee preconditions, termination).
 """
 from vf.unit import Unit
-from .common import HEADER, FOOTER, STR_ORD, contract, extract_struct, widen
+from .common import CLONE_STACKFRAME, HEADER, FOOTER, STR_ORD, contract, extract_struct, widen
 
 FUNC_PROPS = ["C01", "C02"]
 
@@ -18,7 +18,8 @@ def build(profile="functional"):
     u.raw(contract("std_specs.rs"), "std_specs")
 
     st = u.source("src/stacktrace.rs")
-    extract_struct(u, st, "StackFrame", derive="#[derive(Clone)]")
+    extract_struct(u, st, "StackFrame")
+    u.raw(CLONE_STACKFRAME, "glue")
 
     raw = u.source("src/cache/raw.rs")
     u.raw("""pub struct ReadStringError;
@@ -117,7 +118,8 @@ use super::*;
         (*old(members)).obeys_prophetic_iter_laws(),
         (*old(members)).decrease() is Some,
     ensures
-        /*@L:frame_unchanged:C12*/ *final(frame) == *old(frame),""")
+        /*@L:frame_unchanged:C12*/ *final(frame) == *old(frame),
+        (*final(members)).obeys_prophetic_iter_laws(), (*final(members)).decrease() is Some,""")
         inv_extra = ""
     f.body_start("let ghost mut n: int = 0;\n    let ghost rem0 = members.remaining();\n    proof { assert(rem0.skip(0) == rem0); }\n")
     f.for_to_loop(
@@ -169,9 +171,10 @@ use super::*;
     else:
         g.props_all = ["C12"]
         g.contract("""    requires
-        (*old(members)).obeys_prophetic_iter_laws(),
+        (*old(members)).obeys_prophetic_iter_laws(), (*old(members)).decrease() is Some,
     ensures
-        /*@L:frame_unchanged:C12*/ *final(frame) == *old(frame),""")
+        /*@L:frame_unchanged:C12*/ *final(frame) == *old(frame),
+        (*final(members)).obeys_prophetic_iter_laws(), (*final(members)).decrease() is Some,""")
     u.emit(g)
 
     # =================== impl ProguardCache (lookup side) ===================
@@ -308,6 +311,84 @@ use super::*;
         rc.contract("    ensures true,")
     u.emit(rc)
 
+    # ---------------- remap_frame ----------------
+    rf = cm.impl_fn(IMPL, "remap_frame")
+    rf.ret("ret")
+    rf.props_safety = ["C12"]
+    rf.props_all = ["C01", "C02", "C03"] if fun else ["C12"]
+    rf.closure("|m|", occ=1, params="|m: &raw::Member|", ret="o: Ordering",
+               spec="ensures o == member_cmp2(self.string_bytes@, *m, frame.method@, frame_params@)" if fun else "")
+    rf.closure("|m|", occ=2, params="|m: &raw::Member|", ret="o: Ordering",
+               spec="ensures o == member_cmp(self.string_bytes@, *m, frame.method@)" if fun else "")
+    rf.body_start(STR_ORD + "        broadcast use axiom_default_str;\n")
+    if fun:
+        rf.contract("""    requires wf_cache(*self), frame.line < 0xffff_ffff,
+    ensures
+        it_wf(ret),
+        /*@L:unknown_class_no_frames:C01,C02,C03*/ no_class(*self, frame.class@) ==> ret.inner is None,
+        /*@L:exact_entry_block:C01,C02,C03*/ forall|i: int| #[trigger] has_class(*self, i, frame.class@) ==> ({
+            let cl = self.classes@[i]; let sb = self.string_bytes@;
+            &&& (ret.inner is Some ==> *(ret.inner.unwrap().0) == *self
+                    && aframe(ret.inner.unwrap().1) == (AFrame { class: tbl(sb, cl.original_name_offset).unwrap(), ..aframe(*frame) }))
+            &&& match frame.parameters {
+                    None => exists|p: int, q: int| is_block(sb, class_members(*self, cl), p, q, frame.method@)
+                                && #[trigger] class_members(*self, cl).subrange(p, q) == it_members(ret),
+                    Some(ps) => exists|p: int, q: int| is_block2(sb, class_members_by_params(*self, cl), p, q, frame.method@, ps@)
+                                && #[trigger] class_members_by_params(*self, cl).subrange(p, q) == it_members(ret),
+                }
+        }),""")
+        rf.body_start("let ghost frame0 = *frame;\n        let ghost sb = self.string_bytes@;\n        let ghost mut i0: int = 0;\n")
+        rf.after_stmt("let Some(class) = self.get_class(", """        proof {
+            i0 = choose|i: int| 0 <= i < self.classes@.len() && *class == #[trigger] self.classes@[i];
+            assert(has_class(*self, i0, frame0.class@));
+            assert forall|i: int| #[trigger] has_class(*self, i, frame0.class@) implies i == i0 by { lemma_class_unique(*self, i, i0, frame0.class@); }
+            assert(wf_class(*self, self.classes@[i0]));
+        }
+""")
+        # by-params branch
+        rf.after_stmt("let Some(members) = self.get_class_members_by_params(", """            proof {
+                assert(members@ == class_members_by_params(*self, *class));
+                lemma_member_cmp2(sb, members@, frame.method@, frame_params@);
+            }
+            let ghost ms = members@;
+""")
+        rf.insert_before("return RemappedFrameIter::empty();", "proof { assert(ms.subrange(0, 0) == Seq::<raw::Member>::empty()); assert(is_block2(sb, ms, 0, 0, frame.method@, frame_params@)); }\n", occ=4)
+        rf.insert_before("RemappedFrameIter::members(self, frame, members.iter())", """proof {
+                let (p, q) = choose|p: int, q: int| 0 <= p < q <= ms.len() && #[trigger] ms.subrange(p, q) == members@
+                    && (forall|k: int| p <= k < q ==> member_cmp2(sb, #[trigger] ms[k], frame.method@, frame_params@) == Ordering::Equal)
+                    && (forall|k: int| (0 <= k < p || q <= k < ms.len()) ==> member_cmp2(sb, #[trigger] ms[k], frame.method@, frame_params@) != Ordering::Equal);
+                assert(is_block2(sb, ms, p, q, frame.method@, frame_params@));
+                let rem = members@.as_ref();
+                assert(deref_members(rem) == ms.subrange(p, q));
+                assert forall|j: int| 0 <= j < rem.len() implies wf_member(sb, *#[trigger] rem[j]) by {
+                    assert(*rem[j] == ms[p + j]);
+                }
+            }
+            """, occ=1)
+        # line branch
+        rf.after_stmt("let Some(members) = self.get_class_members(", """            proof {
+                assert(members@ == class_members(*self, *class));
+                lemma_member_cmp(sb, members@, frame.method@);
+            }
+            let ghost ms = members@;
+""")
+        rf.insert_before("return RemappedFrameIter::empty();", "proof { assert(ms.subrange(0, 0) == Seq::<raw::Member>::empty()); assert(is_block(sb, ms, 0, 0, frame.method@)); }\n", occ=6)
+        rf.insert_before("RemappedFrameIter::members(self, frame, members.iter())", """proof {
+                let (p, q) = choose|p: int, q: int| 0 <= p < q <= ms.len() && #[trigger] ms.subrange(p, q) == members@
+                    && (forall|k: int| p <= k < q ==> member_cmp(sb, #[trigger] ms[k], frame.method@) == Ordering::Equal)
+                    && (forall|k: int| (0 <= k < p || q <= k < ms.len()) ==> member_cmp(sb, #[trigger] ms[k], frame.method@) != Ordering::Equal);
+                assert(is_block(sb, ms, p, q, frame.method@));
+                let rem = members@.as_ref();
+                assert(deref_members(rem) == ms.subrange(p, q));
+                assert forall|j: int| 0 <= j < rem.len() implies wf_member(sb, *#[trigger] rem[j]) by {
+                    assert(*rem[j] == ms[p + j]);
+                }
+            }
+            """, occ=2)
+    else:
+        rf.contract("""    ensures match ret.inner { None => true, Some((cache, frame, members)) => members.obeys_prophetic_iter_laws() && members.decrease() is Some },""")
+    u.emit(rf)
+
     u.raw("} // impl ProguardCache\n", "glue")
     # =================== RemappedFrameIter ===================
     from .common import extract_struct_priv
@@ -317,12 +398,12 @@ use super::*;
     e = cm.impl_fn(IT, "empty")
     e.ret("ret")
     e.props_all = ["C01", "C02", "C03"] if fun else ["C12"]
-    e.contract("    ensures /*@L:empty_iter:C01,C02,C03*/ ret.inner is None," if fun else "    ensures true,")
+    e.contract("    ensures /*@L:empty_iter:C01,C02,C03,C12*/ ret.inner is None,")
     u.emit(e)
     mfn = cm.impl_fn(IT, "members")
     mfn.ret("ret")
     mfn.props_all = ["C01", "C02", "C03"] if fun else ["C12"]
-    mfn.contract("    ensures /*@L:members_iter:C01,C02,C03*/ ret.inner == Some((cache, frame, members))," if fun else "    ensures true,")
+    mfn.contract("    ensures /*@L:members_iter:C01,C02,C03,C12*/ ret.inner == Some((cache, frame, members)),")
     u.emit(mfn)
     u.raw("}\n", "glue")
 
